@@ -146,7 +146,7 @@ func validJSON(b []byte) bool { return json.Valid(b) }
 // Spec computes what is allowed. t0/t1 are unix seconds around the call (for relative expiries).
 func Spec(pre *Doc, o *Op, t0, t1 int64, maxDoc int) Expect {
 	ex := spec(pre, o, t0, t1, maxDoc)
-	if macroMixed(o) || o.BadJSONX || o.BadName {
+	if macroMixed(o) || o.BadJSONX || o.BadName || o.BadMacro {
 		if ex.Accept == 1 {
 			ex.Accept, ex.Why = 0, "arg"
 		}
